@@ -56,6 +56,15 @@ CHECKS = {
  "C19": dict(cat="exploration", tech="law-checking runtime monitor over value pools + cross-implementation coherence through SQL on both engines",
    text="Equality/order/hash laws over all pairs and triples of boundary+random pools of 13 types, comparison kernels vs DataValue::cmp, print->parse through the string cast and the CSV field parser; SQL leg: ORDER BY, <, join equality, GROUP BY, DISTINCT, MIN/MAX must induce the same relations on stored values on both engines.",
    note="Calendar values from SQL-reachable ranges. Cells compared as printed (decimals by value, -0.0 = 0.0).", ref="6 C19"),
+ "C02": dict(cat="exploration", tech="differential runtime monitoring against an independent SQL implementation (SQLite) on the common dialect subset",
+   text="Generated queries of the core relational subset over small-domain tables with NULLs and duplicates run on risinglight (memory / disk, optimizer on) and on SQLite with the same data; multisets (key sequences under ORDER BY) must agree. Disagreements are classified by re-running with the optimizer off and bisecting rules.",
+   note="Only constructs where SQLite and the standard agree (see assumptions in the evidence). NOT IN subqueries only through the sentinel of their known finding. Failing/rejected statements are not wrong answers.", ref="6 C02"),
+ "C16": dict(cat="exploration", tech="runtime type monitor (static plan types vs runtime array variants) + INSERT round-trip monitor with a value-equality oracle",
+   text="Leg A: for executed queries the runtime array variant of every result column and every chunk width are compared with the static types the planner derives on the live catalog. Leg B: INSERTs with implicit conversions (VALUES, column subsets, INSERT..SELECT) into columns of 8 types on both engines are read back: declared variant, NULL only if nullable, value equal to the inserted one, otherwise the statement must have failed.",
+   note="A rejected INSERT is always acceptable. Lossy float->integer and number->boolean conversions are known findings with sentinels.", ref="6 C16"),
+ "C17": dict(cat="exploration", tech="plan well-formedness monitor over the optimized RecExpr + build/execute under catch_unwind in a disposable runner",
+   text="Generated statements with every generator feature on are bound, optimized and inspected: no apply/in/exists/max1row left, consistent join key lists, residuals only where the executor allows, same output types as the bound plan, and building + running the plan must not panic; optimizer panics are violations, a watchdog is inconclusive.",
+   note="The walker is the harness's own (not the repo's resolve_column_index). Execution errors (type, overflow) are not planning defects.", ref="6 C17"),
 }
 
 def main():
